@@ -43,6 +43,8 @@ class Acc:
             self.harness.append((case, out))
             return
         h = case_hash(case)
+        if case.get("scenario") == "vec":
+            h += ":%s" % case.get("seed")  # the entropy seed is part of the case (hnsw_rs level draws)
         self.hist.add(h)
         if nontrivial:
             self.nontrivial.add(h)
@@ -892,6 +894,86 @@ def check_c04(tier, seed):
     return finish(acc, rule, ASSUME_COMMON + ["faults off", "clause permutation/duplication of inline programs is workload, not a scheduler dimension"], minimiser=minimise_hsc)
 
 
+# ------------------------------------------------------------------------------------- vector scenarios
+
+C24_ORACLES = ["more_than_k_results", "duplicate_id_in_results", "dead_id_in_results", "distance_not_exact", "results_not_sorted",
+               "too_few_results_in_exact_regime", "not_true_nearest_in_exact_regime", "panic"]
+C25_ORACLES = ["insert_acceptance_differs", "tombstones_after_rebuild", "save_load_changes_index", "index_save_failed", "index_load_failed", "config_changed",
+               "dimension_differs", "tombstone_count_exceeds_deletes", "live_vector_missing", "final_id_set_differs", "final_vector_differs", "rebuild_failed", "panic"]
+
+
+def vec_check(prop, oracles, tier, seed, rule, entropy_seeds):
+    acc = Acc(prop, tier, seed, oracles, "exploration")
+    n_hist = (220 if tier == "quick" else 8000)
+    hist = gen("vec", seed, 0, n_hist)
+    cases = []
+    for h in hist:
+        for e in range(entropy_seeds):
+            c = copy.deepcopy(h)
+            c["seed"] = h["seed"] * 131 + e  # same history, another entropy stream (hnsw_rs level draws, hash orders)
+            cases.append(c)
+    outs = execute(cases, timeout_s=240)
+    determinism_spot_check(cases, outs, k=10)
+    searches = exact = saves = 0
+    metrics = collections.Counter()
+    for c, o in zip(cases, outs):
+        kinds = collections.Counter(op["op"] for op in c["ops"])
+        acc.add(c, o, kinds.get("search", 0) >= 1 and (kinds.get("insert", 0) + kinds.get("insert_batch", 0)) >= 1)
+        searches += o.get("searches", 0)
+        exact += o.get("exact_regime_searches", 0)
+        saves += o.get("save_loads", 0)
+        metrics[c["metric"]] += 1
+    acc.extra.update({"histories": len(hist), "entropy_seeds_per_history": entropy_seeds, "searches_checked": searches,
+                      "searches_in_exact_regime": exact, "save_load_cycles": saves, "metrics": dict(metrics)})
+    return finish(acc, rule, ASSUME_COMMON + ["faults off; save/load through the real file system", "tolerance 2e-3 relative on distances (f32 arithmetic inside the index)",
+                                              "the dot-product metric is taken as the index defines it: negated cosine of the normalised vectors"],
+                  minimiser=lambda case, oracle: vlib.ddmin_list(copy.deepcopy(case), "ops", oracle, 120, time.time()))
+
+
+def check_c24(tier, seed):
+    rule = ("seeded data histories (dimension 1-8, up to ~60 vectors incl. exact duplicates and near-zero norms, all four metrics, m/ef_construction/ef_search knobs) of insert / "
+            "insert_batch / update of an existing id / delete (crossing the 30 % auto-compaction) / rebuild / save+load and searches with k in {1,3,10,100}, ef in {default,1,k,50,200}; "
+            "each history is replayed under 8 entropy seeds (hnsw_rs draws its levels from the interposed getrandom); oracle (brute force over the model id -> latest vector): at "
+            "most k results, ids distinct and live, distances non-decreasing and equal to the exact metric distance, and when live <= ef exactly min(k, live) results whose "
+            "distances are the true k nearest; non-trivial = history has an insert and a search; distinct = distinct (history, entropy seed)")
+    return vec_check("C24", C24_ORACLES, tier, seed, rule, 8)
+
+
+def check_c25(tier, seed):
+    rule = ("same histories as C24 (insert, update of an existing id, delete incl. unknown ids and re-insert of a deleted id, rebuild, repeated HnswIndex::save/load cycles "
+            "through the real file system) under 4 entropy seeds; oracle after every step and every load: configuration and metric unchanged, dimension = model, tombstone count "
+            "<= deletes since the last rebuild and 0 after a rebuild, no live vector missing, save->load preserves (len, tombstones, dimension, metric, config); at the end an "
+            "exhaustive search returns exactly the live ids and each id is at distance 0 from its latest vector; non-trivial = history has an insert and a search")
+    return vec_check("C25", C25_ORACLES, tier, seed, rule, 4)
+
+
+def check_c26(tier, seed):
+    oracles = ["lsh_bucket_depends_on_cache_state", "deadlock", "panic", "law_symmetry", "law_non_negative", "law_identity", "law_cosine_range",
+               "law_quantize_roundtrip", "law_probes_start", "law_probes_distinct", "law_probes_hamming_order"]
+    acc = ConcAcc("C26", tier, seed, oracles, "exploration")
+    n = 1500 if tier == "quick" else 60000
+    cases = gen("lsh", seed, 0, n)
+    outs = execute(cases, timeout_s=120)
+    determinism_spot_check(cases, outs, k=10)
+    buckets = laws = ev = 0
+    for c, o in zip(cases, outs):
+        acc.add(c, o, len(c.get("threads", [])) >= 2 and o.get("buckets_checked", 0) >= 1)
+        if o.get("status") in ("ok", "fail"):
+            acc.schedules.add((o.get("site_hash"), tuple(o.get("sched_choices", []))))
+            acc.preempt[min(o.get("preemptions", 0), 20)] += 1
+        buckets += o.get("buckets_checked", 0)
+        laws += o.get("law_checks", 0)
+        ev += o.get("evictions", 0)
+    acc.conc_extra()
+    acc.extra.update({"buckets_checked_against_pristine_cache": buckets, "cache_evictions_fired": ev, "incidental_pure_law_checks": laws})
+    rule = ("cache clause, decided by simulation: 2-3 simulated threads call lsh_bucket / lsh_buckets / lsh_bucket_with_distances / prewarm / clear / configure_size(0..3) on the "
+            "process-wide hyperplane cache (fresh per forked run; vectors of different dimensions share (table, hyperplane count) pairs so that eviction and re-creation run "
+            "constantly) under seeded schedules over the cache's lock; oracle: every bucket = the value computed on an empty cache for the same arguments; the pure clauses "
+            "(metric symmetry / non-negativity / identity, cosine range, quantise round-trip, probe sequence laws) are evaluated on the vectors that flow through the runs - "
+            "incidental, not the deciding search; non-trivial = >=2 threads and >=1 bucket computed")
+    return finish(acc, rule, CONC_ASSUME, minimiser=lambda case, oracle: case)
+
+
 CHECKS = {
     "C04": check_c04,
     "C10": check_c10,
@@ -903,6 +985,9 @@ CHECKS = {
     "C18": check_c18,
     "C19": check_c19,
     "C20": check_c20,
+    "C24": check_c24,
+    "C25": check_c25,
+    "C26": check_c26,
     "C32": check_c32,
     "C33": check_c33,
     "C16": check_c16,
